@@ -29,6 +29,9 @@ FLOORS = {"quick": {"decisions": 30000, "decisions_multi_class": 8000, "equal_st
                        "fairness_checks": 60000, "kind_WFQ": 6000, "kind_VC": 6000, "many_to_one_cases": 2000}}
 KEYS = tuple(FLOORS["quick"].keys()) + ("back_to_back", "idle_then_arrival", "arrival_at_tx_end",
                                          "arrival_at_tx_end_after_departure", "worlds_dropped", "arrived_between_pick_and_start")
+# floors for the situations added with the later rounds of seeded changes (evidence that they were really exercised)
+FLOORS["quick"].update({'arrived_between_pick_and_start': 800, 'mixed_type_class_id_cases': 100})
+FLOORS["thorough"].update({'arrived_between_pick_and_start': 4000, 'mixed_type_class_id_cases': 500})
 
 
 def plan(tier):
@@ -238,6 +241,7 @@ def one_case(ctx, case):
     import collections
     stats = collections.Counter({k: 0 for k in KEYS})
     run = vs.Run(case, counters=False).go()
+    vs.count_features(ctx, run)
     cfg = case["cfg"]
     if not run.viol:
         c12.time_rules(run, stats, run.bad)
